@@ -208,6 +208,8 @@ class Interp:
                         "Future", "Task", "Lock", "Logger", "TaskGroup", "Token", "ContextVar",
                         "Context", "EventLoop", "TimerHandle", "partial", "weakref", "timedelta0"):
                     return z3.BoolVal(True)
+            if self.st.entails(V.subclass(V.class_of(V.addr(v)), self.ct.id("BaseException"))):
+                return z3.BoolVal(True)      # exception objects define neither __bool__ nor __len__
             return self.lib.truthy_ref(V.addr(v))
         # unknown kind: full case split as a term
         return z3.If(V.is_none(v), False,
@@ -216,7 +218,8 @@ class Interp:
                z3.If(V.is_float(v), V.rval(v) != 0,
                z3.If(V.is_str(v), self.lib.str_len(V.sid(v)) > 0,
                z3.If(V.is_tup(v), z3.Not(V.is_nil(V.items(v))),
-               z3.If(V.is_ref(v), self.lib.truthy_ref(V.addr(v)), True)))))))
+               z3.If(V.is_ref(v), z3.Or(V.subclass(V.class_of(V.addr(v)), self.ct.id("BaseException")),
+                                        self.lib.truthy_ref(V.addr(v))), True)))))))
 
     def test(self, v: z3.ExprRef, tag: str) -> bool:
         return self.st.decide(self.truthy(v), tag)
